@@ -413,7 +413,16 @@ pub fn rq_to_sql(rq: ir::rq::RelationalQuery, options: &Options) -> Result<Strin
 
 /// Generate PRQL code from PL AST
 pub fn pl_to_prql(pl: &pr::ModuleDef) -> Result<String, ErrorMessages> {
-    Ok(codegen::WriteSource::write(&pl.stmts, codegen::WriteOpt::default()).unwrap())
+    // verification hook: how often the expression writer ran for this document (layout retries included)
+    #[cfg(prqlc_verif)]
+    codegen::verif_fmt_calls::reset();
+    let res = codegen::WriteSource::write(&pl.stmts, codegen::WriteOpt::default()).unwrap();
+    #[cfg(prqlc_verif)]
+    log::debug!(
+        "verif:fmt-calls {}",
+        serde_json::json!({"expr_writes": codegen::verif_fmt_calls::get(), "len": res.len()})
+    );
+    Ok(res)
 }
 
 /// JSON serialization and deserialization functions
